@@ -4,6 +4,7 @@ import (
 	"go/ast"
 	"go/token"
 	"go/types"
+	"strings"
 
 	"golang.org/x/tools/go/packages"
 )
@@ -127,29 +128,20 @@ func ruleIdxUnits(c *Ctx) {
 					return true
 				}
 				absStr := types.ExprString(abs)
-				guarded := guardedBy(parents, ix, func(cond ast.Expr, inBody bool) bool {
-					found := false
-					var visit func(e ast.Expr)
-					visit = func(e ast.Expr) {
-						be, ok := ast.Unparen(e).(*ast.BinaryExpr)
-						if !ok {
-							return
-						}
-						if be.Op == token.LAND && inBody || be.Op == token.LOR && !inBody {
-							visit(be.X)
-							visit(be.Y)
-							return
-						}
-						if !isRecvField(info, be.Y, recv, "indexOffset") || types.ExprString(be.X) != absStr {
-							return
-						}
-						if inBody && be.Op == token.GEQ || !inBody && be.Op == token.LSS {
-							found = true
+				// the comparisons that hold on the way to the indexing (boolean helpers of the package read as what they
+				// test): one of them says abs >= pr.indexOffset, in any spelling
+				guarded := false
+				if pa, ok := exprPoly(info, abs, nil, nil, 0); ok {
+					if sub, ok := ast.Unparen(resolveLocal(info, ix.Index, defs, 2)).(*ast.BinaryExpr); ok {
+						if po, ok := exprPoly(info, sub.Y, nil, nil, 0); ok {
+							for _, gf := range guardFacts(c.P, pk, parents, ix) {
+								if gf.says(info, pa, po, token.GEQ) {
+									guarded = true
+								}
+							}
 						}
 					}
-					visit(cond)
-					return found
-				})
+				}
 				if !guarded {
 					// induction variable of an enclosing loop that starts at pr.indexOffset and only increases
 					if aid, ok := ast.Unparen(abs).(*ast.Ident); ok {
@@ -198,26 +190,15 @@ func ruleIdxUnits(c *Ctx) {
 					nSites++
 					aStr := types.ExprString(as)
 					key := "proto.ProtoArray." + fd.Name.Name + ":" + sel.Sel.Name + "(" + aStr + ")"
-					guarded := guardedBy(parents, call, func(cond ast.Expr, inBody bool) bool {
-						found := false
-						var visit func(e ast.Expr)
-						visit = func(e ast.Expr) {
-							be, ok := ast.Unparen(e).(*ast.BinaryExpr)
-							if !ok {
-								return
-							}
-							if be.Op == token.LAND && inBody {
-								visit(be.X)
-								visit(be.Y)
-								return
-							}
-							if inBody && be.Op == token.GEQ && types.ExprString(be.X) == aStr && isRecvField(info, be.Y, recv, "indexOffset") {
-								found = true
+					guarded := false
+					if pa, ok := exprPoly(info, as, nil, nil, 0); ok {
+						po := polyAtom(strings.ReplaceAll(exprText(info, &ast.SelectorExpr{X: sel.X, Sel: ast.NewIdent("indexOffset")}), " ", ""))
+						for _, gf := range guardFacts(c.P, pk, parents, call) {
+							if gf.says(info, pa, po, token.GEQ) {
+								guarded = true
 							}
 						}
-						visit(cond)
-						return found
-					})
+					}
 					if guarded {
 						c.ok(key, call.Pos(), "parent link guarded by >= pr.indexOffset")
 					} else {
